@@ -335,6 +335,7 @@ func c06One(w *c06World, p C06Probe, cacheOn bool, attempt int64, dialNote ...fu
 }
 
 func runC06Batch(c C06Batch, info *kit.Info) *kit.Finding {
+	defer kit.NoGC()() // leaked sockets must not be rescued by finalizers
 	w, err := newC06World(c.Keys, c.CacheN)
 	if err != nil {
 		info.Skipped = err.Error()
